@@ -581,3 +581,52 @@ PROPS['C20'] = {
                    'for exactly-once, order, wake-up of the polling task and end-of-stream iff no sender remains'),
     'level_note': 'Trusted: Lean kernel, harness; futures mpsc and waker delivery; end-to-end induction over histories is being extended (see DESIGN)',
 }
+
+
+def shm_scen(builds, nq, nt):
+    def f(tier, seed):
+        n = nt if tier == 'thorough' else nq
+        out = []
+        for b in builds:
+            for k in range(2):
+                out.append({'build': b, 'args': ['shm', '--seed', str(seed + k), '--n', str(n // 2), '--tier', tier, '--oracle', '1' if k == 0 else '0'],
+                            'timeout': 3000 if tier == 'thorough' else 400})
+        return out
+    return f
+
+
+def search_shm(run):
+    for b in ('default', 'memfd'):
+        for k in range(2):
+            rc, cases, err = vh(['shm', '--seed', str(20 + k), '--n', '300'], build=b, timeout=1200)
+            bad = [c for c in cases if c.get('oracle')]
+            if bad or rc != 0:
+                return {'implementation': bad[0] if bad else {'exit': rc, 'stderr': err[-800:]},
+                        'replay_cmd': f'harness/target-{b}/debug/vh shm --seed {20 + k} --n 300'}
+    return None
+
+
+PROPS['C05'] = {
+    'modules': ['IpcModel.Props.C05'],
+    'theorems': ['C05.C05_contents', 'C05.C05_lifetime', 'C05.C05_zero', 'C05.C05_zero_reads_empty', 'C05.C05_order', 'C05.C05_shape',
+                 'C05.size_is_length', 'Shm.inv_step', 'Shm.calls_step'],
+    'builds': ['default', 'memfd', 'force-inprocess'],
+    'scenarios': plus(shm_scen(['default', 'memfd'], 300, 8000), world_scen(['force-inprocess'], 100, 2000)),
+    'search': search_shm,
+    'rule': ('shm (OS and memfd builds): seeded platform-level histories of 3..12 steps {from_bytes (seeded contents), from_byte, clone, send 1..3 regions in one message and '
+             'receive them, drop} with lengths from {0, 1, 2, 7, page-1, page, page+1, 2 pages-1, 2 pages, 2 pages+1, 3 pages+5, 65537} or seeded <= 70000: the interposed '
+             'ftruncate/mmap/dup/fstat/munmap/close sequence and every live handle\'s (length, mapped?, contents) are compared with Shm.run; munmap lengths and closes are '
+             'checked against the interposer ledger; plus oracle-only cases: regions of 2 MiB+4097, 2 MiB, 5 MiB+1 (thorough: up to 32 MiB) inside small and multi-packet '
+             'messages next to an endpoint and a second region, clones of received regions, zero-length regions at the ipc and platform level, and a spawned process that '
+             'reads 1..4 regions (up to 3 MB) after the sender dropped its copies and the carrying channel; in-process build: the world programs with regions; '
+             'non-trivial = a clone or a transfer; distinct = distinct history'),
+    'explanation': ('contents/length/lifetime invariant proved for every history of create/clone/transfer/drop over a kernel model of objects, descriptors and mappings; '
+                    'zero length never reaches mmap/munmap; object size regenerated from the source; system-call traces of the real crate compared with the model'),
+    'assumptions': ['mmap of a ftruncate-sized object shows the bytes written through another mapping of it (kernel; exercised by the oracle incl. another process)',
+                    'descriptor numbers and addresses are modelled as never reused'],
+    'level_text': ('Kernel-checked for every history of from_bytes/from_byte/clone/transfer/drop: every live handle reads exactly the bytes and length of the region it stems '
+                   'from, dropping any other copy never affects it, zero-length regions never reach mmap/munmap and read as empty; several regions keep their order (descriptor '
+                   'order theorem); the system-call sequence and handle states of the real crate are compared with the model, contents checked in clones, after transfers and '
+                   'in another process'),
+    'level_note': 'Trusted: Lean kernel, translator (object size, zero-length branches), harness; kernel mmap/SCM_RIGHTS semantics modelled; macOS/Windows back ends not covered',
+}
